@@ -1760,27 +1760,17 @@ impl<Octs: AsRef<[u8]> + ?Sized> fmt::Display for DohPath<Octs> {
             f.write_str("dohpath")
         } else {
             f.write_str("dohpath=")?;
-            let mut s = self.as_slice();
-
-            // XXX Should this be moved to base::utils?
-            while !s.is_empty() {
-                match str::from_utf8(s) {
-                    Ok(s) => return f.write_str(s),
-                    Err(err) => {
-                        let end = err.valid_up_to();
-                        if end > 0 {
-                            f.write_str(unsafe {
-                                str::from_utf8_unchecked(&s[..end])
-                            })?;
-                        }
-                        f.write_str("\u{FFFD}")?;
-                        match err.error_len() {
-                            Some(len) => {
-                                s = &s[end + len..];
-                            }
-                            None => break,
-                        }
-                    }
+            // The value is written the way a character string is: octets
+            // that are special in a zone file or not printable are escaped,
+            // so that the text reads back as the same octets.
+            for &ch in self.as_slice() {
+                if ch == b'(' || ch == b')' {
+                    write!(f, "\\{}", ch as char)?;
+                } else {
+                    fmt::Display::fmt(
+                        &crate::base::scan::Symbol::from_octet(ch),
+                        f,
+                    )?;
                 }
             }
             Ok(())
